@@ -50,8 +50,13 @@ CLAIMED = {
          "Every term that reaches a position update in make_whole / wrap_mols / image_frame is shown to be cell[r,k] * rounding(v[r]/cell[r,r]) with rows "
          "processed c,b,a, position stores are old +/- accumulator, no kernel writes the cell, and with inplace=False the kernels act on a deep copy. "
          "That every bonded pair ends at its minimum-image separation is numerical and not decided.", _NOTE, "DESIGN.md §4 C11"),
+ "C08": ("OpenMP data-sharing analysis on the clang AST (+ pragma clauses), callee write-effect summaries, first-access classification of scratch buffers, prange store discipline through the Cython desugarer",
+         "Every OpenMP parallel region of the build (3) and every prange loop (9) is enumerated; each variable written in a region is shown to be region-local, "
+         "private, the work-shared loop variable or an element addressed through the loop variable; callees write only such locations; buffers that outlive a frame are "
+         "re-initialised when the callee accumulates into them; sequential frame loops construct per-frame state inside the loop and advance by the per-frame stride. "
+         "This establishes absence of cross-frame / cross-thread state, not bitwise arithmetic determinism.", _NOTE, "DESIGN.md §4 C08"),
 }
 _PENDING = "check not built yet in this round (design in DESIGN.md §4); will be claimed when its rules run clean"
-NA = {k: _PENDING for k in ["C05","C06","C07","C08","C09","C10","C13","C14","C15"]}
+NA = {k: _PENDING for k in ["C05","C06","C07","C09","C10","C13","C14","C15"]}
 NA["C16"] = ("every clause is numerical equality of computed arrays with closed-form expressions; no structural "
              "necessary condition covers more than one of the fifteen functions (DESIGN.md §5)")
